@@ -9,15 +9,15 @@ TRUST = "Trusted: go/types and go/ssa (x/tools v0.29.0) as a faithful view of /r
 CLAIMS = {
  "C01": dict(
    technique="interprocedural nil-link typestate (may-return-nil / dereferences-parameter summaries + guard-cut of nil tests), guard-cut rules for cross-object slice bounds and partial operations with a reviewed exception table, placeholder-balance path enumeration, must-pass-through for the result shape, loop-variant recognition on natural loops (iterator / bounded counter incl. delete-and-stay / single-direction link walk) and descent check for recursion",
-   text="Decides four necessary conditions of panic-freedom on every path of the reachable module code: maybe-nil DOM links are only dereferenced under a nil test (26 sites rely on reviewed DOM invariants, each named), offsets taken from another value's length are bounded by a case-sensitive prefix/length test, constant indexes/assertions/divisions are guarded or structurally safe, start/end placeholders are balanced so the retainer's stack never underflows, Apply returns an error or a fresh div, no goroutine is started, every loop of reachable module code has a recognised variant and every recursive call descends the (finite) tree - one document-order walk is a reviewed exception. Relational index arithmetic in pagination/pattern, termination inside third-party code and third-party panics are NOT decided.",
+   text="Decides four necessary conditions of panic-freedom on every path of the reachable module code: maybe-nil DOM links are only dereferenced under a nil test (26 sites rely on reviewed DOM invariants, each named), offsets taken from another value's length are bounded by a case-sensitive prefix/length test, constant indexes/assertions/divisions are guarded or structurally safe, start/end placeholders are balanced so the retainer's stack never underflows, Apply returns an error or a fresh div, no goroutine is started, every loop of reachable module code has a recognised variant and every recursive call descends the (finite) tree - one document-order walk is a reviewed exception; a pointer to a module record that a module function may answer as nil is dereferenced only under a nil test (T9, with infeasible nil edges recognised; two sites rest on a reviewed invariant); an update of a nested map is preceded by the creation of its entry (T10). Relational index arithmetic in pagination/pattern, nil pointers paired with error/ok results, termination inside third-party code and third-party panics are NOT decided.",
    design="4/C01"),
  "C02": dict(
    technique="structural order-preservation rules on SSA: forward child loops, who-writes/how-writes rule for the sequence-carrying fields (append-to-self / shift-left delete idiom only), disjoint-window rule for the text builder, loop transition extraction of the emitters, must-pass-through of flushBlock",
-   text="Decides that no step between the document-order walk and the concatenated output can reorder or duplicate: children are visited and attached first-to-last, the five sequence fields are only appended to or shrunk by the shift-left idiom and never sorted or overwritten, each Text gets a disjoint window of the collected nodes, emitters walk forward and skip exactly non-content elements, non-text elements flush pending text first, captions/table text are rendered from the clone by the visibility-aware renderer, and the visibility predicate is the documented decision list. Not decided: which words are selected, and fabrication inside third-party code.",
+   text="Decides that no step between the document-order walk and the concatenated output can reorder or duplicate: children are visited and attached first-to-last, the five sequence fields are only appended to or shrunk by the shift-left idiom and never sorted or overwritten, each Text gets a disjoint window of the collected nodes, emitters walk forward and skip exactly non-content elements, non-text elements flush pending text first, captions/table text are rendered from the clone by the visibility-aware renderer, the visibility predicate is the documented decision list, and whole subtrees enter the output only through the conforming per-node gate or as reviewed Image/Figure copies pruned to img/source (nothing is emitted a second time inside a copied element). Not decided: which words are selected, and fabrication inside third-party code.",
    design="4/C02"),
  "C03": dict(
    technique="sibling-iteration loop discovery on SSA + effect summaries (PEA, callbacks closed over the call graph) for iterator invalidation; table extraction for inline-tag handling; who-writes rule for the flush flag; loop transition extraction for ApplyToModel",
-   text="Decides the structural causes by which a simple paragraph could be cut: (I1) no sibling walk anywhere in the analysed program can have its cursor's link rewritten by a call made before the cursor advances (the WalkNodes defect class), (I2) the nine simple inline tags are inline, never flush or label a block, are never dropped unconditionally, and only SkipNode/StartNode raise the flush flag, (I3) a content block marks every one of its Text elements, (I4) the element visitor never skips an inline element except for a decision on its own attributes or visibility, and the javascript: anchor rewrite hands over the whole (single text) content, (I5) the builder acts on the action of the very element it is given, (I6) output post-processing never restructures the clone. Not decided: the classifier's content decision itself.",
+   text="Decides the structural causes by which a simple paragraph could be cut: (I1) no sibling walk anywhere in the analysed program can have its cursor's link rewritten by a call made before the cursor advances (the WalkNodes defect class), (I2) the nine simple inline tags are inline, never flush or label a block, are never dropped unconditionally, and only SkipNode/StartNode raise the flush flag, (I3) a content block marks every one of its Text elements, (I4) the element visitor never skips an inline element except for a decision on its own marking attributes (class, id, rel, role, itemprop, data-*; of the href only the documented mediawiki test) or visibility, and the javascript: anchor rewrite hands over the whole (single text) content, (I5) the builder acts on the action of the very element it is given, (I6) output post-processing never restructures the clone. Not decided: the classifier's content decision itself.",
    design="4/C03"),
  "C04": dict(
    technique="path enumeration of the converter's element visitor with builder calls as events (visibility gate dominance), decision-list conformance of IsProbablyVisible / InnerText / the clone visitor / the node dispatcher, switch-table extraction for the skip list, reviewed table of wholesale copies",
@@ -29,19 +29,19 @@ CLAIMS = {
    design="4/C05"),
  "C06": dict(
    technique="field-initialisation completeness over composite literals, same-SSA-value absolutise-before-serialise rule with helper/field summaries, constant coverage extraction, decision-list conformance of CreateAbsoluteURL, writer/reader tokeniser agreement, PEA for the stability of the base URL",
-   text="Decides that every element that can carry a URL is given the page URL at construction, that each serialised tree was absolutised with the element's own PageURL on all paths, that the absolutisers cover href/poster/src/srcset and resolve exactly by the documented pass-through list, that ContentImages come from the serialised clones, and that the base URL object is never written. Not decided: RFC 3986 resolution and the srcset grammar.",
+   text="Decides that every element that can carry a URL is given the page URL at construction, that each serialised tree was absolutised with the element's own PageURL on all paths, that the absolutisers cover href/poster/src/srcset and resolve exactly by the documented pass-through list, that ContentImages come from the serialised clones, that the base URL object is never written, and that Apply hands Options.OriginalURL itself to the content extractor on every path. Not decided: RFC 3986 resolution and the srcset grammar.",
    design="4/C06"),
  "C07": dict(
    technique="path enumeration of the converter visitor with emission events (balanced start/end placeholders), CanBeNested table extraction, loop transition-function extraction of the retainer, clone-as-unit and append-only rules",
-   text="Decides the structural necessary conditions of nesting preservation: start and end placeholders are emitted under the same predicate application with the node's own tag name; a nestable element that got its start tag is always walked so its end tag follows; tags are never renamed across the nestable boundary; the stack pass is the last filter to change content flags; the retainer's per-element transition (boolean part) is the documented one; data tables are stored, cloned and serialised as one unit from an append-only node list; text rooted at a nestable element emits inner HTML. Not decided: the retainer's integer stack-mark logic and HTML re-parsing.",
+   text="Decides the structural necessary conditions of nesting preservation: start and end placeholders are emitted under the same predicate application with the node's own tag name; a nestable element that got its start tag is always walked so its end tag follows; tags are never renamed across the nestable boundary; the stack pass is the last filter to change content flags; the retainer's per-element transition (boolean part) is the documented one; data tables are stored, cloned and serialised as one unit from an append-only node list; text rooted at a nestable element emits inner HTML and is never wrapped in clones of its parents as well; the per-node gate through which tables are cloned admits every element that is not script/style/hidden; the visibility pattern recognises the visibility property only. Not decided: the retainer's integer stack-mark logic and HTML re-parsing.",
    design="4/C07"),
  "C08": dict(
    technique="loop transition-function extraction (one iteration of RelevantElements.Process as a decision list over boolean loop state) + call ordering (must-pass-through) + layering (who-may-call) + loop/promotion rules",
-   text="Decides that the retention automaton for non-text elements is exactly: content element opens a run, dropped text closes it, any other element is retained iff the run is open; that the filters run in the fixed order after text classification; that the lead-image promotion is a single SetIsContent(true) outside loops over candidates that are dropped images/figures before the last retained text; that elements enter the document after the text that precedes them (flush before append); and that nobody else writes the content flag. This is the structural form of 'retained iff the nearest preceding text block is retained, plus at most one lead image'. Not decided: scorer arithmetic and the classifier's choice of text blocks.",
+   text="Decides that the retention automaton for non-text elements is exactly: content element opens a run, dropped text closes it, any other element is retained iff the run is open; that the filters run in the fixed order after text classification; that the lead-image promotion is a single SetIsContent(true) outside loops over candidates that are dropped images/figures before the last retained text; that elements enter the document after the text that precedes them (flush before append); that every embed extractor is offered every candidate node (complete loop over the extractor list, which holds every implementation); and that nobody else writes the content flag. This is the structural form of 'retained iff the nearest preceding text block is retained, plus at most one lead image'. Not decided: scorer arithmetic and the classifier's choice of text blocks.",
    design="4/C08"),
  "C09": dict(
    technique="single-source rule per GenerateOutput implementation (text and HTML return values traced to the same SSA value/field), canonical-expression checks of Apply's result stores, loop transition extraction of Document.GenerateOutput, decision-list conformance of ExtractContent",
-   text="Decides that the views cannot diverge structurally: each element renders text and HTML from one processed clone (or has no text in either view), ContentImages are read from the serialised clones with the same srcset tokeniser, Apply takes Text/Node/WordCount/ContentImages from one ExtractContent call and one Document, and the document emitters skip exactly non-content elements in list order. One implementation (Embed) violates the rule on the current tree and is a listed known finding. Not decided: word-level equality and the numeric WordCount relation.",
+   text="Decides that the views cannot diverge structurally: each element renders text and HTML from one processed clone (or has no text in either view) and the code that only one view executes removes nothing from that clone, ContentImages are read from the serialised clones with the same srcset tokeniser, Apply takes Text/Node/WordCount/ContentImages from one ExtractContent call and one Document, and the document emitters skip exactly non-content elements in list order. One implementation (Embed) violates the rule on the current tree and is a listed known finding. Not decided: word-level equality and the numeric WordCount relation.",
    design="4/C09"),
  "C10": dict(
    technique="whole-program provenance & effects analysis (summary-based may-write analysis over go/ssa with symbolic parameter regions, deferred higher-order calls, VTA call graph)",
@@ -57,7 +57,7 @@ CLAIMS = {
    design="4/C12"),
  "C13": dict(
    technique="control-dependence regions of log-flag branches checked with PEA effect summaries (write-only log regions, no value merged back), path enumeration of Apply with result stores as events, use-only-as-condition rules",
-   text="Decides non-interference of the options structurally: log-flag predicates only steer branches whose regions neither store outside region-local memory/reviewed debug maps nor call anything with effects nor feed values back; in Apply the PaginationInfo store happens exactly under !SkipPagination && URL != nil, URL is OriginalURL.String() exactly when non-nil, all other fields are filled on all successful paths from option-independent expressions, no other branch exists, the finders leave document and URL untouched, modelled standard-library mutators inside log regions work on region-local data only, and nothing below the entry points writes the Options or the URL they point to.",
+   text="Decides non-interference of the options structurally: log-flag predicates only steer branches whose regions neither store outside region-local memory/reviewed debug maps nor call anything with effects nor feed values back; in Apply the PaginationInfo store happens exactly under !SkipPagination && URL != nil, URL is OriginalURL.String() exactly when non-nil, all other fields are filled on all successful paths from option-independent expressions, no other branch exists, the finders leave document and URL untouched, modelled standard-library mutators inside log regions work on region-local data only, maps that are only filled by logging code are read only by logging code, and nothing below the entry points writes the Options or the URL they point to.",
    design="4/C13"),
  "C14": dict(
    technique="static decision-list extraction + guard-cut/ordering rules on SSA (accessor order, OpenGraph gate, first-non-empty getters, opt-out dominance, field/getter agreement)",
@@ -69,7 +69,7 @@ CLAIMS = {
    design="4/C19"),
  "C20": dict(
    technique="decision-list conformance of ExtractContent with path-resolved phis; structural checks of the per-pass construction; guard-cut of the flag-dependent skips in the converter; global-reader scan",
-   text="Decides the two-pass skeleton: pruning pass first, second pass with Default iff the first yields <= 499 words, document and count from the same pass; each pass uses fresh builder/converter over a deep clone; the flag-dependent skips are guarded by the complete documented exemptions (the ancestor test climbs to the root) and the patterns are used nowhere else; no other class/id test of the content packages reacts to a marker word of the unlikely pattern (two overlaps exist on the current tree and are listed known findings: the comment-section rule and the socialArea skip). Not decided: the metamorphic equalities themselves, and pagination (which reads class names of the original document).",
+   text="Decides the two-pass skeleton: pruning pass first, second pass with Default iff the first yields <= 499 words, document and count from the same pass; each pass uses fresh builder/converter over a deep clone; the flag-dependent skips are guarded by the complete documented exemptions (the ancestor test climbs to the root), no element reaches the builder before the flag was tested, and the patterns are used nowhere else; no other class/id test of the content packages reacts to a marker word of the unlikely pattern (two overlaps exist on the current tree and are listed known findings: the comment-section rule and the socialArea skip). Not decided: the metamorphic equalities themselves, and pagination (which reads class names of the original document).",
    design="4/C20"),
  "C15": dict(
    technique="decision-list conformance of the title candidate list, string-provenance walk over SSA for getDocumentTitle's results, belief rule (looked-up key must be inserted) and normalisation-chain agreement between the two sides of the title matcher, guard-cut for the title suppression",
@@ -77,11 +77,11 @@ CLAIMS = {
    design="4/C15"),
  "C16": dict(
    technique="sink sanitisation by guard-cut (candidate admission in PrevNext), decision-path enumeration with URL stores as events (validators of numbered links, PrevPage/NextPage sinks), exhaustive classification of every PageInfo.URL / NextPagingURL writer in the module",
-   text="Decides that every URL that can reach NextPage/PrevPage is \"\", or the normalised absolute href of an anchor that passed the parse + scheme://host/ prefix test (PrevNext) resp. parse + host equality + http(s) scheme (PageNumber), or a copy of such a URL; the only other source (the current document's own URL inserted by the detector) is filtered by a normalised comparison before PrevPage is set; both finders are given the caller's Options.OriginalURL itself. Not decided: that the link is the right page (C17) and port/case subtleties of host comparison.",
+   text="Decides that every URL that can reach NextPage/PrevPage is \"\", or the normalised absolute href of an anchor that passed the parse + same-site (scheme://host/ prefix rendered unmodified by UnescapedString, or equal hosts) + http(s) scheme tests (PrevNext) resp. parse + host equality + http(s) scheme (PageNumber), or a copy of such a URL; the only other source (the current document's own URL inserted by the detector, as it is or with only the trailing slash of its path removed) is filtered by a normalised comparison before PrevPage is set; both finders are given the caller's Options.OriginalURL itself. Not decided: that the link is the right page (C17) and port/case subtleties of host comparison.",
    design="4/C16"),
  "C18": dict(
    technique="static decision-list extraction from SSA (normalised branch paths) compared with the documented cascade; literal-table key sets; guard-cut reachability",
-   text="Decides, for every path through Classifier.Classify / getDirectDescendants and the converter's table case, that the branch structure equals the documented ordered cascade (order, thresholds, operands, tables by content, outcomes), and that the converter walks into a table only after the classifier said it is not a data table. Holds for all inputs because it is a statement about the code's decision structure, not about sampled tables. Not decided: row/column counting arithmetic and text validity helpers.",
+   text="Decides, for every path through Classifier.Classify / getDirectDescendants and the converter's table case, that the branch structure equals the documented ordered cascade (order, thresholds, operands, tables by content, outcomes), that the converter walks into a table only after the classifier said it is not a data table, that the visibility predicate behind the has-valid-text question conforms, and that the converter hands the classifier an unmodified deep clone (hidden rows and cells count). Holds for all inputs because it is a statement about the code's decision structure, not about sampled tables. Not decided: row/column counting arithmetic and text validity helpers.",
    design="4/C18"),
 }
 NA = {
